@@ -1159,3 +1159,163 @@ func runNoRebase(p *Prog, r *Report) {
 	r.ExpectMin("E6.functions-taking-bytes-and-position", n, 2)
 	r.Clauses = append(r.Clauses, "E6.no-rebase: a function taking file bytes and a position never re-slices the bytes from a non-zero start")
 }
+
+// E15.conversion-source-siblings — the feature walkers of decoder.Any ask the same question
+// before descending into an operator, template, … node: "can what this node produces be used
+// where the constraint's type is expected". Within the walkers of one node kind the produced
+// type (the source of the conversion check against the receiver's constraint) must be the same
+// expression of the node; a walker that checks another type (an operand's instead of the
+// result's) accepts or rejects the node differently from its siblings.
+func runConversionSourceSiblings(p *Prog, r *Report) {
+	type site struct {
+		fn   *Func
+		call *ast.CallExpr
+		val  string
+	}
+	groups := map[string][]site{}
+	for _, fn := range p.Funcs {
+		if fn.Body == nil || !anyRecv(fn) {
+			continue
+		}
+		info := fn.Info()
+		ast.Inspect(fn.Body, func(z ast.Node) bool {
+			call, ok := z.(*ast.CallExpr)
+			if !ok || len(call.Args) != 2 {
+				return true
+			}
+			full := calleeFull(info, call)
+			if !strings.HasSuffix(full, "cty/convert.Convert") && !strings.HasSuffix(full, "cty/convert.GetConversion") && !strings.HasSuffix(full, "cty/convert.GetConversionUnsafe") {
+				return true
+			}
+			if !strings.HasSuffix(exprStr(fn.InlineLocals(call.Args[1], 2)), ".cons.OfType") {
+				return true
+			}
+			// a helper that makes the check for its callers: judged at each call site, with
+			// the parameter read as the argument
+			if root := rootOf(fn); root.Type.Params != nil {
+				if id, ok := ast.Unparen(fn.InlineLocals(call.Args[0], 3)).(*ast.CallExpr); ok && len(id.Args) == 1 {
+					if pid, ok := ast.Unparen(id.Args[0]).(*ast.Ident); ok && root.isParam(info.ObjectOf(pid)) {
+						idx, k := -1, 0
+						for _, f := range root.Type.Params.List {
+							for _, nm := range f.Names {
+								if info.ObjectOf(nm) == info.ObjectOf(pid) {
+									idx = k
+								}
+								k++
+							}
+						}
+						for _, cs := range inheritSites(root) {
+							if idx < 0 || idx >= len(cs.call.Args) {
+								continue
+							}
+							kind, tsVar := enclosingCaseKind(p, cs.fn, cs.call)
+							if kind == "" {
+								continue
+							}
+							src := replaceWord(exprStr(id), pid.Name, exprStr(cs.fn.InlineLocals(cs.call.Args[idx], 3)))
+							if tsVar != "" {
+								src = replaceWord(src, tsVar, "#")
+							}
+							groups[kind] = append(groups[kind], site{cs.fn, cs.call, src})
+						}
+						return true
+					}
+				}
+			}
+			// the node kind handled here: innermost enclosing type-switch clause
+			kind, tsVar := "", ""
+			for q := p.Parent(call); q != nil; q = p.Parent(q) {
+				cc, ok := q.(*ast.CaseClause)
+				if !ok {
+					continue
+				}
+				ts, ok := p.Parent(p.Parent(cc)).(*ast.TypeSwitchStmt)
+				if !ok || len(cc.List) != 1 {
+					continue
+				}
+				if pt, ok := info.TypeOf(cc.List[0]).(*types.Pointer); ok {
+					if nt := namedOf(pt); nt != nil {
+						kind = nt.Obj().Name()
+					}
+				}
+				if as, ok := ts.Assign.(*ast.AssignStmt); ok && len(as.Lhs) == 1 {
+					if id, ok := as.Lhs[0].(*ast.Ident); ok {
+						tsVar = id.Name
+					}
+				}
+				break
+			}
+			if kind == "" {
+				return true
+			}
+			src := exprStr(fn.InlineLocals(call.Args[0], 3))
+			if tsVar != "" {
+				src = replaceWord(src, tsVar, "#")
+			}
+			groups[kind] = append(groups[kind], site{fn, call, src})
+			return true
+		})
+	}
+	var kinds []string
+	for k := range groups {
+		kinds = append(kinds, k)
+	}
+	sort.Strings(kinds)
+	n := 0
+	for _, k := range kinds {
+		ss := groups[k]
+		cnt := map[string]int{}
+		for _, s := range ss {
+			cnt[s.val]++
+		}
+		best, bestN := "", 0
+		for v, c := range cnt {
+			if c > bestN || c == bestN && v < best {
+				best, bestN = v, c
+			}
+		}
+		for _, s := range ss {
+			n++
+			key := "produced type of *hclsyntax." + k
+			switch {
+			case len(ss) < 3 || bestN < len(ss)-1:
+				r.Add("E15.conversion-source-siblings", s.fn.Name, key, p.Pos(s.call), OK, "too few agreeing siblings to cross-check", false)
+			case s.val == best:
+				r.Add("E15.conversion-source-siblings", s.fn.Name, key, p.Pos(s.call), OK, fmt.Sprintf("agrees with %d of %d walkers of this node kind (%s)", bestN, len(ss), best), true)
+			default:
+				r.Add("E15.conversion-source-siblings", s.fn.Name, key, p.Pos(s.call), Violated,
+					fmt.Sprintf("%d of %d walkers of *hclsyntax.%s check whether %s converts to the constraint's type; this one checks %s instead, so it accepts or rejects the node differently from its siblings", bestN, len(ss), k, best, s.val), true)
+			}
+		}
+	}
+	r.ExpectMin("E15.conversion-source-sites", n, 6)
+	r.Clauses = append(r.Clauses, "E15.conversion-source-siblings: the walkers of decoder.Any for one syntax node kind agree on the produced type they check against the constraint's type")
+}
+
+// enclosingCaseKind: the hclsyntax node type of the innermost single-type type-switch clause
+// around n, and the name the switch binds.
+func enclosingCaseKind(p *Prog, fn *Func, n ast.Node) (kind, tsVar string) {
+	info := fn.Info()
+	for q := p.Parent(n); q != nil; q = p.Parent(q) {
+		cc, ok := q.(*ast.CaseClause)
+		if !ok {
+			continue
+		}
+		ts, ok := p.Parent(p.Parent(cc)).(*ast.TypeSwitchStmt)
+		if !ok || len(cc.List) != 1 {
+			continue
+		}
+		if pt, ok := info.TypeOf(cc.List[0]).(*types.Pointer); ok {
+			if nt := namedOf(pt); nt != nil {
+				kind = nt.Obj().Name()
+			}
+		}
+		if as, ok := ts.Assign.(*ast.AssignStmt); ok && len(as.Lhs) == 1 {
+			if id, ok := as.Lhs[0].(*ast.Ident); ok {
+				tsVar = id.Name
+			}
+		}
+		return
+	}
+	return
+}
